@@ -388,7 +388,8 @@ def ebnf_meta_batch(ctx, rng, n):
             run_ebnf_meta(ctx, G, texts)
             ctx.count('meta-corpus')
     for _ in range(n):
-        if not ctx.time_left():
+        if not ctx.time_left(0.4):            # the rest belongs to the token coordinates
+            ctx.count('ebnf-meta-stopped-on-its-share-of-the-time-budget')
             return
         G = gen.ebnf(rng, p_rec=0.1, p_ignore=0.6, allow_templates=True)
         if G['ignore']:
